@@ -83,7 +83,8 @@ class EventLog(object):
         self.tail = []
         self.kinds = {}
 
-    def emit(self, kind, **fields):
+    def emit(self, _kind, **fields):
+        kind = _kind
         self.n += 1
         rec = [self.n, kind, fields]
         line = cjson(rec)
